@@ -20,7 +20,7 @@ def run(tier, seed):
     rep.rule = ("expansion-only corpus (token-soup fn/mod/impl inputs + realistic fn/mod cases, biased to many non-identifier "
                 "parameters, entraited traits with every delegation option, and a family over a four-name vocabulary in which the trait one "
                 "invocation generates is the bound / supertrait / target another one mentions, with and without ?Send and the mock options); every source is instantiated 2-5 times in different files at different line / column offsets; the workspace is built k times "
-                "with shuffled shard/module order and perturbed environment; records grouped by (variant, attr, input) must "
+                "with shuffled shard/module order and perturbed environment (one of the builds compiles the macro crate itself without debug assertions); records grouped by (variant, attr, input) must "
                 "agree on the output tokens (spacing included). non-trivial = group with >= 3 observations from >= 2 processes")
     n = 500 if tier == "quick" else 2500
     builds = 3 if tier == "quick" else 6
@@ -37,6 +37,13 @@ def run(tier, seed):
     k = 0
     while k < n // 3:
         lst = tuple(rng.choice(syms) for _ in range(rng.randint(3, 6)))
+        if rng.random() < 0.25:
+            # the largest rename sets: the fn's own name next to the names its renaming would pick (`foo`, `foo_`, `foo__`)
+            core_ = [rng.choice(["=fn", "r#=fn", "N(=fn)", "mut =fn"]), "=fn_", "=fn__"][:rng.randint(2, 3)]
+            # (with a pattern that has no name of its own, all three stages of the naming run)
+            lst = list(core_) + ([rng.choice(["_", "(a,b)", "N2(a,_)"])] if rng.random() < 0.7 else []) + [rng.choice(syms) for _ in range(rng.randint(0, 3))]
+            rng.shuffle(lst)
+            lst = tuple(lst)
         if not c16.valid(lst):
             continue
         f = c16.make_fn(lst, rng.random() < 0.3)
@@ -89,8 +96,10 @@ def run(tier, seed):
     procs = set()
     envs = [
         {},
-        {"HOME": "/tmp", "LANG": "tr_TR.UTF-8", "TZ": "Pacific/Kiritimati", "SOURCE_DATE_EPOCH": "1", "RUST_BACKTRACE": "full",
-         "ENTRAIT_DEBUG": "1", "ENTRAIT_SEED": "42", "CARGO_BUILD_JOBS": "1"},
+        # (this build also compiles the proc-macro crate itself under another profile: no debug assertions, as `--release` does)
+        {"HOME": "/tmp", "CARGO_HOME": os.path.expanduser("~/.cargo"), "RUSTUP_HOME": os.path.expanduser("~/.rustup"), "LANG": "tr_TR.UTF-8", "TZ": "Pacific/Kiritimati", "SOURCE_DATE_EPOCH": "1", "RUST_BACKTRACE": "full",
+         "ENTRAIT_DEBUG": "1", "ENTRAIT_SEED": "42", "CARGO_BUILD_JOBS": "1",
+         "CARGO_PROFILE_DEV_BUILD_OVERRIDE_DEBUG_ASSERTIONS": "false", "CARGO_PROFILE_DEV_BUILD_OVERRIDE_OVERFLOW_CHECKS": "false"},
         {"LC_ALL": "C", "RUST_LOG": "trace", "ENTRAIT_VERIF": "x", "CARGO_BUILD_JOBS": "3", "RUST_MIN_STACK": "16777216"},
         {"CARGO_BUILD_JOBS": "16", "RUSTC_BOOTSTRAP": "0", "USER": "someone-else", "COLUMNS": "20"},
         {"CARGO_BUILD_JOBS": "2", "TMPDIR": "/var/tmp", "NO_COLOR": "1"},
@@ -127,6 +136,9 @@ def run(tier, seed):
         if alt is not None:
             import shutil
             shutil.rmtree(alt, ignore_errors=True)
+        if len(ws.all_records) < len(inst):
+            # (a build that recorded nothing explored nothing: the perturbed environment broke the build itself)
+            raise core.Inconclusive("build %d recorded %d expansions for %d invocations (environment %s)" % (b, len(ws.all_records), len(inst), sorted(env_b)))
         for r in ws.all_records:
             total_records += 1
             if r["status"] != "end":
